@@ -42,7 +42,7 @@ var otherZone = time.FixedZone("UTC+05:45", 5*3600+45*60)
 // the order, so every combined deviation uses a seed whose low three bits are 1 (the rotation that reorders
 // every map with two or more entries); the higher bits vary the start bucket / offset of larger maps.
 var Deviations = []Deviation{
-	{Name: "restarted-node+clock+7m+seed1", Clock: 7 * time.Minute, Seed: 1, Cold: true, Restart: true},
+	{Name: "restarted-node+clock+7m+seed1+zone", Clock: 7 * time.Minute, Seed: 1, Cold: true, Restart: true, Zone: otherZone},
 	{Name: "cold+clock-7m+seed9+zone", Clock: -7 * time.Minute, Seed: 9, Cold: true, Zone: otherZone},
 	{Name: "cold+clock+400d+seed17+telemetry", Clock: 400 * 24 * time.Hour, Seed: 17, Cold: true, Telemetry: true},
 }
